@@ -94,10 +94,16 @@ def _process_updates(sequence, filename, mods, moved):
 
             d = deque()
             mods[src.key][1].extend([("move", src, trg), d])
+            # the name src no longer refers to this pkg; if that name is reused as a
+            # move target later, its new history must not be chained onto this one.
+            mods[src.key][1] = deque()
             # start essentially a new checkpoint in the trg
             mods[trg.key][1].append(d)
             mods[trg.key][1] = d
             moved[src.key] = trg
+            # the trg name is populated (again) from here on, so later commands
+            # naming it are not redundant.
+            moved.pop(trg.key, None)
 
         elif line[0] == "slotmove":
             if len(line) != 4:
